@@ -280,12 +280,41 @@ def e2e(ctx, iso3, options):
         grass = np.asarray(MeatAndDairy(cp).human_inedible_feed.kcals, float)
     wellformed(ctx, "grass", grass, n, case)
     compare(ctx, "grass", grass, R.grass_series(cp["HUMAN_INEDIBLE_FEED_BASELINE_MONTHLY"], [cp["RATIO_GRASSES_YEAR%d" % i] for i in range(1, 11)], n), case)
+    if "GRASSES_PRODUCTION_MULTIPLIER" in options:
+        # scaling grass production by a factor scales the whole series by that factor (same run without the override x factor)
+        o0 = {k: v for k, v in options.items() if k != "GRASSES_PRODUCTION_MULTIPLIER"}
+        with quiet():
+            grass0 = np.asarray(MeatAndDairy(model.build_constants(iso3, o0)[0]).human_inedible_feed.kcals, float)
+        compare(ctx, "grass_scaled_by_production_multiplier", grass, float(options["GRASSES_PRODUCTION_MULTIPLIER"]) * grass0, case)
+        ctx.event("grass_multiplier_%d_months" % n)
     nonuniform = len(set(np.round(cp["SEASONALITY"], 12))) > 1
     if (nonuniform or len(set(ratios)) > 1) and (d > 0 or cp["DELAY"].get("SEAWEED_MONTHS", 0) > 0 or cp["DELAY"].get("GREENHOUSE_MONTHS", 0) > 0 or cp["OG_USE_BETTER_ROTATION"]):
         ctx.nontrivial_case(case)
     ctx.event("e2e_" + options["scenario"])
     ctx.sample(dict(iso3=iso3, scenario=options["scenario"], NMONTHS=n, crops_first=np.round(np.asarray(series["outdoor_crops"], float)[:6], 4),
                     scp_first_nonzero=int(np.argmax(np.asarray(series["methane_scp"]) > 0))), limit=4)
+
+
+def grass_multiplier(ctx, c):
+    """scaling grass production by a factor scales the grazing series of every month by exactly that factor"""
+    iso3, options, m = c
+    case = dict(kind="grass_multiplier", iso3=iso3, options=options, multiplier=m)
+    from src.food_system.meat_and_dairy import MeatAndDairy
+    try:
+        with quiet():
+            cp0 = model.build_constants(iso3, options)[0]
+            cp1 = model.build_constants(iso3, dict(options, GRASSES_PRODUCTION_MULTIPLIER=m))[0]
+            g0 = np.asarray(MeatAndDairy(cp0).human_inedible_feed.kcals, float)
+            g1 = np.asarray(MeatAndDairy(cp1).human_inedible_feed.kcals, float)
+    except (AssertionError, SystemExit, Exception) as e:
+        ctx.abort(type(e).__name__)
+        return
+    n = cp0["NMONTHS"]
+    wellformed(ctx, "grass", g1, n, case)
+    compare(ctx, "grass_scaled_by_production_multiplier", g1, m * g0, case)
+    ctx.event("grass_multiplier_%d_months" % n)
+    if m != 1 and np.any(g0 > 0) and len(set(np.round(g0, 9))) > 1:
+        ctx.nontrivial_case(case)
 
 
 def strategy():
@@ -298,6 +327,12 @@ def shard(ctx):
     thorough = ctx.tier == "thorough"
     drive(ctx, direct_case(), lambda c: direct(ctx, c), 6000 if thorough else 80, tag="direct")
     drive(ctx, strategy(), lambda c: e2e(ctx, c[0], c[1]), 300 if thorough else 12, shrink=False, tag="e2e")
+    hz = [120, 120, 108, 96, 72, 48]
+    mult = st.sampled_from([0.5, 2.0, 0.0]) | st.floats(0, 10).map(lambda x: round(x, 4))
+    gm = st.one_of(st.tuples(gen.country(small_bias=True), gen.options("country", horizons=hz), mult),
+                   st.tuples(gen.country(small_bias=True), gen.options("country", horizons=hz), mult),
+                   st.tuples(st.just("WOR"), gen.options("global", horizons=hz), mult))
+    drive(ctx, gm, lambda c: grass_multiplier(ctx, c), 200 if thorough else 8, shrink=False, tag="grassmult")
     if thorough:
         for i, iso in enumerate(model.iso3_list()):
             if i % ctx.nshards != ctx.shard:
@@ -315,5 +350,7 @@ def replay(case, ctx):
     ctx.count()
     if case["kind"] == "direct":
         direct(ctx, case)
+    elif case["kind"] == "grass_multiplier":
+        grass_multiplier(ctx, (case["iso3"], case["options"], case["multiplier"]))
     else:
         e2e(ctx, case["iso3"], case["options"])
